@@ -839,7 +839,8 @@ assert ( vals ( self . entries @ ) . contains ( c ) ) ;
 
 
     fn try_insert ( & mut self , hash : u64 ) -> ( r : bool ) requires old ( self ) . wf ( ) , hash < old ( self ) . theta ensures final ( self ) . wf ( ) , same_config ( * final ( self ) , * old ( self ) ) ,
-/*@C04.insert.theta*/ 0 < final ( self ) . theta <= old ( self ) . theta , hash == 0 ==> ! r && final ( self ) . entries @ == old ( self ) . entries @ && final ( self ) . theta == old ( self ) . theta && final ( self ) . num_entries == old ( self ) . num_entries ,
+/*@C04.insert.theta*/ 0 < final ( self ) . theta <= old ( self ) . theta ,
+/*@C04.insert.theta_drop*/ final ( self ) . theta < old ( self ) . theta ==> old ( self ) . num_entries >= pow2 ( old ( self ) . lg_nom_size as nat ) , hash == 0 ==> ! r && final ( self ) . entries @ == old ( self ) . entries @ && final ( self ) . theta == old ( self ) . theta && final ( self ) . num_entries == old ( self ) . num_entries ,
 /*@C04.insert.new*/ hash != 0 ==> r == ! holds ( old ( self ) . entries @ , hash ) ,
 /*@C04.insert.set*/ hash != 0 ==> vals ( final ( self ) . entries @ ) == vals ( old ( self ) . entries @ ) . insert ( hash ) . filter ( | c : u64 | c < final ( self ) . theta ) ,
 /*@C18.theta.load*/ final ( self ) . num_entries <= max_load ( final ( self ) . lg_nom_size ) , {
@@ -980,6 +981,7 @@ hash }
 
     fn trim ( & mut self ) requires old ( self ) . wf ( ) ensures final ( self ) . wf ( ) , same_config ( * final ( self ) , * old ( self ) ) ,
 /*@C04.trim.theta*/ final ( self ) . theta <= old ( self ) . theta && ( old ( self ) . theta > 0 ==> final ( self ) . theta > 0 ) ,
+/*@C04.trim.theta_drop*/ final ( self ) . theta < old ( self ) . theta ==> old ( self ) . num_entries > pow2 ( old ( self ) . lg_nom_size as nat ) ,
 /*@C04.trim.smallest*/ vals ( final ( self ) . entries @ ) == vals ( old ( self ) . entries @ ) . filter ( | c : u64 | c < final ( self ) . theta ) ,
 /*@C04.trim.count*/ final ( self ) . num_entries == ( if old ( self ) . num_entries <= pow2 ( old ( self ) . lg_nom_size as nat ) {
 old ( self ) . num_entries as int }
